@@ -23,6 +23,7 @@ import (
 	"sort"
 	"strconv"
 	"strings"
+	"sync/atomic"
 	"time"
 
 	"github.com/LiskHQ/lisk-engine/pkg/blockchain"
@@ -40,6 +41,10 @@ type pair struct {
 	resp *p2p.Connection
 	hung bool
 	dead bool // the responder banned the requester: the next op needs a new pair
+	// more connected peers (multipeer.go); their faulty behaviour starts when armed is set
+	extras []extraPeer
+	armed  *atomic.Bool
+	quit   chan struct{}
 }
 
 // startPair replays the requester chain on a fresh node, starts the responder and connects the two
@@ -57,7 +62,8 @@ func startPair(c *chains, b behav, served []*blockchain.Block) (pr *pair, out st
 			return nil, "setup-failed", []corr.Fail{fail("c19-setup", "requester restart: %v", err)}
 		}
 	}
-	resp, err := newResponder(c, b, served)
+	armed, quit := &atomic.Bool{}, make(chan struct{})
+	resp, err := newResponder(c, b, served, armed)
 	if err != nil {
 		q.Close()
 		return nil, "setup-failed", []corr.Fail{fail("c19-setup", "responder: %v", err)}
@@ -68,7 +74,7 @@ func startPair(c *chains, b behav, served []*blockchain.Block) (pr *pair, out st
 		q.Close()
 		return nil, "setup-failed", []corr.Fail{fail("c19-setup", "requester connection: %v", err)}
 	}
-	pr = &pair{q: q, resp: resp}
+	pr = &pair{q: q, resp: resp, armed: armed, quit: quit}
 	ok := false
 	defer func() {
 		if !ok {
@@ -106,6 +112,16 @@ func startPair(c *chains, b behav, served []*blockchain.Block) (pr *pair, out st
 	if !ready {
 		return pr, "setup-failed", []corr.Fail{fail("c19-setup", "the two hosts did not get connected")}
 	}
+	if b.extra != "" {
+		announced := served[len(served)-1]
+		if b.target >= 0 && b.target < len(served) {
+			announced = served[b.target]
+		}
+		if fs := pr.connectExtras(c, b, announced); fs != nil {
+			return pr, "setup-failed", fs
+		}
+	}
+	armed.Store(true)
 	ok = true
 	return pr, "", nil
 }
@@ -117,11 +133,18 @@ func (p *pair) stop() {
 	if p == nil || p.hung {
 		return
 	}
+	if p.quit != nil {
+		close(p.quit)
+		p.quit = nil
+	}
 	fin := make(chan struct{})
 	go func() {
 		defer close(fin)
 		_ = p.q.Conn.Stop()
 		_ = p.resp.Stop()
+		for _, e := range p.extras {
+			_ = e.conn.Stop()
+		}
 		p.q.Close()
 	}()
 	select {
